@@ -169,6 +169,28 @@ class Agg:
         return "%s%s%s" % (self.ty or "", "::" + self.variant if self.variant else "", tuple(self.fields))
 
 
+class SymOpt(Agg):
+    """Option<T> whose presence is symbolic: `present` is an SBool, fields[0] the payload (meaningful when present)"""
+    __slots__ = ("present",)
+
+    def __init__(self, present, value):
+        Agg.__init__(self, "Option", None, [value])
+        self.present = present
+
+    def __repr__(self):
+        return "SymOpt(%s, %r)" % (self.present, self.fields[0])
+
+
+class MapBuf:
+    """BTreeMap / HashMap with few entries: list of [key, value]; keys pairwise distinct"""
+
+    def __init__(self, entries=None):
+        self.entries = [list(e) for e in (entries or [])]
+
+    def __repr__(self):
+        return "Map(%s)" % (self.entries,)
+
+
 class Opaque:
     """a value the executor knows nothing about (result of a havoc'd call, an error object, ...)"""
 
@@ -236,6 +258,8 @@ def new_ref(value, mut=False):
 
 def clone_value(v):
     """copy/move of a value: aggregates are copied structurally so later field writes do not alias"""
+    if isinstance(v, SymOpt):
+        return SymOpt(v.present, clone_value(v.fields[0]))
     if isinstance(v, Agg):
         return Agg(v.ty, v.variant, [clone_value(f) for f in v.fields])
     return v
@@ -243,6 +267,10 @@ def clone_value(v):
 
 def deep_clone(v):
     """Clone::clone semantics for owned data"""
+    if isinstance(v, SymOpt):
+        return SymOpt(v.present, deep_clone(v.fields[0]))
+    if isinstance(v, MapBuf):
+        return MapBuf([[deep_clone(k), deep_clone(x)] for k, x in v.entries])
     if isinstance(v, Agg):
         return Agg(v.ty, v.variant, [deep_clone(f) for f in v.fields])
     if isinstance(v, VecBuf):
@@ -308,6 +336,69 @@ def load_enums(src_root):
                         names.append(mo2.group(1))
                 if names and name not in ENUMS:
                     ENUMS[name] = names
+
+
+STRUCTS = {}
+
+
+def load_structs(src_root):
+    """field order of the crate's own named-field structs, read from the source tree"""
+    import os
+    pat = re.compile(r"\bstruct\s+([A-Za-z_][A-Za-z0-9_]*)\s*(?:<[^>{]*>)?\s*\{", re.S)
+    for root, _d, files in os.walk(src_root):
+        for f in files:
+            if not f.endswith(".rs"):
+                continue
+            text = open(os.path.join(root, f)).read()
+            text = re.sub(r"//[^\n]*", "", text)
+            text = re.sub(r'"(?:[^"\\\n]|\\.)*"', '""', text)
+            for mo in pat.finditer(text):
+                name = mo.group(1)
+                i = mo.end()
+                depth = 1
+                j = i
+                while j < len(text) and depth:
+                    if text[j] in "{([":
+                        depth += 1
+                    elif text[j] in "})]":
+                        depth -= 1
+                    j += 1
+                body = text[i:j - 1]
+                body = re.sub(r"#\[[^\]]*\]", "", body)   # attributes (no nested brackets expected)
+                fields = []
+                d = 0
+                cur = ""
+                for ch in body:
+                    if ch in "{([<":
+                        d += 1
+                    elif ch in "})]>":
+                        d -= 1
+                    if ch == "," and d == 0:
+                        fields.append(cur)
+                        cur = ""
+                    else:
+                        cur += ch
+                fields.append(cur)
+                names = []
+                for fld in fields:
+                    m2 = re.match(r"\s*(?:pub(?:\([^)]*\))?\s+)?([a-z_][A-Za-z0-9_]*)\s*:", fld.strip())
+                    if m2:
+                        names.append(m2.group(1))
+                if names and name not in STRUCTS:
+                    STRUCTS[name] = names
+
+
+def mk_struct(name, **fields):
+    order = STRUCTS[name]
+    missing = [f for f in order if f not in fields]
+    extra = [f for f in fields if f not in order]
+    if missing or extra:
+        raise Unsupported("struct %s: missing fields %s, unknown fields %s" % (name, missing, extra))
+    return Agg(name, None, [fields[f] for f in order])
+
+
+def field_of(agg, name):
+    return agg.fields[STRUCTS[agg.ty].index(name)]
 
 
 def strip_generics(path):
@@ -384,6 +475,7 @@ class Program:
         self.impl_index = {}
         if src_root:
             load_enums(src_root)
+            load_structs(src_root)
             self.build_impl_index(src_root)
 
     def build_impl_index(self, src_root):
@@ -1002,6 +1094,11 @@ class Ctx:
         return Agg(segs[-1] if segs else path, None, vals)
 
     def discriminant(self, v):
+        if isinstance(v, SymOpt):
+            p = v.present
+            if p.concrete:
+                return mk_int(1 if p.v else 0, "isize")
+            return mk_int(z3.If(p.v, z3.BitVecVal(1, 64), z3.BitVecVal(0, 64)), "isize")
         if isinstance(v, Agg) and v.variant is not None and v.ty in ENUMS:
             return mk_int(variant_index(v.ty, v.variant), "isize")
         if isinstance(v, SymEnum):
